@@ -9,7 +9,7 @@
 From MV Require Import Base.
 
 
-Open Scope Z_scope.
+Local Open Scope Z_scope.
 
 (* ---------- exceptions -------------------------------------------------- *)
 
